@@ -150,7 +150,7 @@ type graphEvent struct {
 func runRefGraphs(sc *work.Scratch, devs []string, tier string) (*graphResult, int) {
 	prop := "C10"
 	g := &graphResult{knownSeen: map[string]int{}, coverage: map[string]any{}}
-	g.rule = "graphs = EVERY graph on 2 definitions (81) and, in the thorough tier, on 3 definitions (4096; quick: a seeded 6%) in which each definition has an optional reference property p and an optional array-of-references property q to any definition; documents = every document that follows the graph's edges to depth 3 (2 for three definitions) with a valid, an invalid or no leaf value, plus, for cyclic graphs, documents nested 200 and 10001 levels along a cycle"
+	g.rule = "graphs = EVERY graph on 2 definitions (81) and, in the thorough tier, on 3 definitions (4096; quick: a seeded 6%) in which each definition has an optional reference property p and an optional array-of-references property q to any definition; documents = every document that follows the graph's edges to depth 3 (2 for three definitions; thorough: 4 and 3) with a valid, an invalid or no leaf value, plus, for cyclic graphs, documents nested 200 and 10001 levels along a cycle"
 	seed := Seed()
 	rng := rand.New(rand.NewSource(seed + 10))
 	var units []*Unit
